@@ -331,6 +331,26 @@ def run(prog, tier, res):
                 skip_ok = True
                 loop_hdr = hd_[0]
                 seed_next = (outside[0][0], ("field", ("downcast", outside[0][2], "Some"), 0))
+    # third shape: no seed at all — one loop over ALL tracks, each iteration pushes its track exactly once (into the last
+    # cluster or as a new one-element cluster): `for track in tracks { match clusters.last_mut() { Some(c) if near => c.push(track), _ => clusters.push(vec![track]) } }`
+    whole_loop = False
+    if not skip_ok:
+        nx2 = []
+        for bk, t in bb_.calls():
+            if short(cname(t)) == "Iterator::next":
+                it = unmut(ban.terms.operand(t["args"][0]))
+                while it[0] == "call" and short(it[1]) == "IntoIterator::into_iter" and it[2]:
+                    it = unmut(it[2][0])
+                nx2.append((bk, it))
+        loops_ = [(tl, hd, bb_.natural_loop(tl, hd)) for (tl, hd) in bb_.back_edges()]
+        if len(nx2) == 1 and nx2[0][1][0] in ("param", "mut") and nx2[0][1][1] == 1:
+            hd_ = [hd for (tl, hd, lp_) in loops_ if nx2[0][0] in lp_]
+            idx0 = [bk for bk, t in bb_.calls() if short(cname(t)) == "Index::index" and unmut(strip_deref(ban.terms.operand(t["args"][0])))[0] in ("param", "mut")
+                    and unmut(strip_deref(ban.terms.operand(t["args"][0])))[1] == 1]
+            if hd_ and not idx0:
+                skip_ok = True
+                whole_loop = True
+                loop_hdr = hd_[0]
     if skip_ok:
         res.hit(R5)
     else:
@@ -347,6 +367,8 @@ def run(prog, tier, res):
                 else:
                     seed_ok = False
                     break
+    if whole_loop:
+        seed_ok = True           # nothing is taken out before the loop: the loop sees every track
     if seed_next is not None:
         for bi_, si_, st_ in bb_.stmts():
             if st_["k"] == "assign" and st_["rv"]["k"] == "aggr" and st_["rv"].get("ak") == "array" and bb_.dominates(bi_, loop_hdr):
